@@ -125,6 +125,16 @@ fn builder_case(inp: &[u64]) -> Result<(), String> {
         let ef = b.build_with_seq();
         for i in 0..n { if ef.get(i) != acc[i] { return Err(format!("get({}) = {} expected {}", i, ef.get(i), acc[i])); } }
     }
+    // the concurrent builder, used sequentially, in a scrambled index order
+    if !acc.is_empty() || n == 0 {
+        let cb = sux::dict::EliasFanoConcurrentBuilder::new(acc.len(), u);
+        let mut order: Vec<usize> = (0..acc.len()).collect();
+        for i in (1..order.len()).rev() { let j = rng.below(i as u64 + 1) as usize; order.swap(i, j); }
+        for &i in &order { unsafe { cb.set(i, acc[i]) }; }
+        let ef = cb.build();
+        let sel = unsafe { ef.map_high_bits(SelectAdaptConst::<_, _, 12, 3>::new) };
+        for i in 0..acc.len() { if sel.get(i) != acc[i] { return Err(format!("concurrent builder: get({}) = {} expected {}", i, sel.get(i), acc[i])); } }
+    }
     // From<slice>: monotone input gives the sequence, a descent anywhere is rejected by a panic
     { let ef: EliasFano = EliasFano::from(&acc[..]);
       if ef.len() != acc.len() { return Err("From<slice>: len".into()); }
